@@ -17,7 +17,8 @@ for id in $ids; do
   first=$(echo "$res" | grep "violation \[" | head -1 | cut -c1-260)
   git -C /repo checkout -- . ; git -C /repo clean -fdq src/
   rm -f /tmp/arroy-*.lock
-  echo "$id check=$prop rc=$rc $(( $(date +%s) - start ))s :: $first" | tee -a $out
+  nv=$(echo "$res" | grep -c "^VIOLATION")
+  echo "$id check=$prop rc=$rc viol=$nv $(( $(date +%s) - start ))s :: $first" | tee -a $out
 done
 sort -o $out $out
 git -C /repo status --short
